@@ -48,6 +48,8 @@ PAYLOADS = [
     # strings that look like data of some other type (versions, dates, addresses, numbers in other notations, patterns, formats)
     "2.10.0", "2.5", "10.0", "1.2.3.4", "v1.2", "2024-01-31", "12:30", "10.0.0.1", "a@b.co", "/usr/bin", "1,000", "50%", "$5", "#fff", "<b>", "&amp;",
     "null", "true", "false", "undefined", "NULL", "\\d+", ".*", "^a$", "[a-z]", "%Y-%m-%d", "{:>4}", "0b1", "0o7", "1j", "1L", "1.", ".5", "+1", "-1",
+    # complete documents of some data format (a decoder that sniffs the content must not run on them)
+    "[]", "[1, 2]", "{}", '{"a": 1}', "{'a': 1}", '[{"a": [1]}]', '"x"', "123", "1.5e3", "<a>b</a>", "a=1&b=2", "key: value", "b'x'", "(1, 2)", "[1,2][0]", "{1, 2}", "1_0",
     "1 2", "\u0661\u0662", "1e-3", "1/2", "3+4", "a.b", "a.b.c", "os.sep", "a[0]", "a(1)", "lambda: 1", "x if y else z", "not a", "a and b", "a in b",
 ]
 
@@ -216,7 +218,7 @@ def fixed_cases():
     for p in GOOD_PAYLOADS:
         q = "'" if '"' in p else '"'
         body = M.if_([(M.cmp_(M.ident("f"), "==", M.lit_str(p, q)), M.ret([(M.lit_str(p + "#a", q), "1")])),
-                      (M.cmp_(M.ident("f"), "in", M.tup([M.lit_str(p, q), M.lit_str("z")])), M.ret([(M.lit_str("b"), "1")])),
+                      (M.cmp_(M.ident("f"), "in", M.tup([M.lit_str(p, q), M.lit_str("z")])), M.ret([(M.lit_str(p, q), "1")])),  # (the payload itself is the group handed back)
                       # the payload as the ONLY member of a tuple (it stays a tuple whatever the payload contains), also nested
                       (M.cmp_(M.ident("f"), "in", M.tup([M.lit_str(p, q)])), M.ret([(M.lit_str("one"), "1")])),
                       (M.cmp_(M.ident("f"), "not in", M.tup([M.tup([M.lit_str(p, q)]), M.tup([M.lit_int("1"), M.lit_int("2")])])), M.ret([(M.lit_str("nested"), "1")])),
